@@ -23,7 +23,7 @@ import os
 import re
 import sys
 import typing
-from typing import Any, Callable, Dict, Iterator, List, Literal, Optional, Tuple, Type, Union
+from typing import Any, Callable, Dict, Iterable, Iterator, List, Literal, Optional, Tuple, Type, Union
 
 from pyglove.core import io as pg_io
 from pyglove.core import typing as pg_typing
@@ -584,7 +584,13 @@ class Symbolic(
 
     if not path_value_pairs and raise_on_no_change:
       raise ValueError(self._error_message('There are no values to rebind.'))
-    updates = self._sym_rebind(path_value_pairs)
+    try:
+      updates = self._sym_rebind(path_value_pairs)
+    except Exception:
+      # Earlier items of the batch may have been applied: the content-based
+      # caches along the written paths must not outlive them.
+      self._reset_caches_along(path_value_pairs.keys())
+      raise
     if skip_notification is None:
       skip_notification = not flags.is_change_notification_enabled()
     if not skip_notification:
@@ -1260,6 +1266,27 @@ class Symbolic(
       # is processed.
       if target is self and not notify_parents:
         break
+
+  def _reset_caches_along(self, paths: Iterable[utils.KeyPath]) -> None:
+    """Resets the content-based caches of the nodes that contain `paths`."""
+    nodes = []
+    node = self
+    while node is not None:
+      nodes.append(node)
+      node = node.sym_parent
+    for path in paths:
+      node = self
+      for key in path.keys[:-1]:
+        if not node.sym_hasattr(key):
+          break
+        node = node.sym_getattr(key)
+        if not isinstance(node, Symbolic):
+          break
+        nodes.append(node)
+    for node in nodes:
+      node._set_raw_attr('_sym_puresymbolic', None)       # pylint: disable=protected-access
+      node._set_raw_attr('_sym_missing_values', None)     # pylint: disable=protected-access
+      node._set_raw_attr('_sym_nondefault_values', None)  # pylint: disable=protected-access
 
   def _error_message(self, message: str) -> str:
     """Create error message to include path information."""
